@@ -9,7 +9,10 @@ changes every trainable field, `s:Class.field=v` = option call writing value id 
 default), `m:b` = mode switch, `o` = observer call (summary / str / export / cost / get_cost); `pre` =
 observer calls made on the fresh wrapper before loading), resumes under protocol R or under the literal reading and answers
 
-`keys=<ok|bad> diff=[Class.field,...] rec=<eq|ne> pers=<eq|ne> obs=<eq|ne>`
+`keys=<ok|bad> ckpt=<eq|ne> diff=[Class.field,...] rec=<eq|ne> pers=<eq|ne> obs=<eq|ne>`
+
+`ckpt` = the state_dict of the resumed wrapper right after loading is the checkpoint that was loaded
+(`save_resume_eq_save`);
 
 `diff` = non-recomputed fields whose value differs right after loading; `rec`/`pers`/`obs` = recomputed
 fields / persisted fields / observation after one forward.
@@ -71,8 +74,9 @@ def handle (line : String) : String :=
       let recEq := all.all fun i => σG.kind i != .recomputed || ft.val i == fs.val i
       let persEq := all.all fun i => !(σG.kind i).persisted || ft.val i == fs.val i
       let obsEq := obs σG sem 3 t == obs σG sem 3 s
+      let ckptEq := all.all fun i => save σG t i == sd i
       let b := fun (x : Bool) => if x then "eq" else "ne"
-      s!"keys={if keysOk then "ok" else "bad"} diff={showList qualName diff} rec={b recEq} pers={b persEq} obs={b obsEq}"
+      s!"keys={if keysOk then "ok" else "bad"} ckpt={b ckptEq} diff={showList qualName diff} rec={b recEq} pers={b persEq} obs={b obsEq}"
     | _, _, _ => "bad-request"
   | _ => "bad-request"
 
